@@ -64,9 +64,14 @@ class _ReprSource:
     def __init__(self) -> None:
         self.nodes: list[dict] = []
         self.by_id: dict[int, int] = {}
+        self.atoms: dict[str, int] = {}
         self.keep: list[Any] = []
 
     def atom(self, text: str) -> int:
+        key = squeeze(text)
+        if key in self.atoms:
+            return self.atoms[key]
+        self.atoms[key] = len(self.nodes) + 1
         self.nodes.append({"kind": "atom", "head": squeeze(text), "trunc": False, "bump": 0,
                            "args": []})
         return len(self.nodes)
